@@ -17,14 +17,14 @@ ID = 'C15'
 LEVEL = 'exploration'
 RULE = ('sequences of 3-12 steps over add (with/without start) / rm (with/without nostop) / start / stop / '
         'reloadconfig (file rewritten with a random subset of the pool) / status / list, names drawn from the pool '
-        '{a, A, b, "B b", "", ü, a.b, *, Web1} and requests spelling existing names in random letter case. '
+        '{a, A, b, "B b", "", ü, a.b, *, Web1, "a ", " b", blanks, "Web1<TAB>"} and requests spelling existing names in random letter case. '
         'non-trivial = the directory changed at least once and the coherence oracle ran; distinct = sequence of '
         '(operation, name class, reply status)')
 ASSUMPTIONS = ['start/stop by name use match=simple when the name contains glob characters (otherwise the documented '
                'glob matching would address several watchers)',
                'configuration files never define two names equal ignoring case (ambiguous)']
 BUDGET = {'quick': 240, 'thorough': 1500}
-POOL = ['a', 'A', 'b', 'B b', '', 'ü', 'a.b', '*', 'Web1']
+POOL = ['a', 'A', 'b', 'B b', '', 'ü', 'a.b', '*', 'Web1', 'a ', ' b', '  ', 'Web1\t']
 FILE_POOL = ['a', 'A', 'b', 'B b', 'ü', 'a.b', 'Web1']
 
 
